@@ -204,8 +204,18 @@ impl<V, G> HnswIndex<V, G> {
             let found =
                 self.search_layer(ctx, &vector, &ep_candidates, self.params.ef_construction, l)?;
 
-            // Select neighbors
-            let neighbors = self.select_neighbors(found.clone(), self.params.m);
+            // Select neighbors. When a vector is stored again for a node that is already in
+            // the graph, the node finds itself (never link a node to itself) and it keeps the
+            // links it already has: replacing them can cut other nodes off from the graph.
+            let mut neighbors = self.select_neighbors(found.clone(), self.params.m + 1);
+            neighbors.retain(|&n| n != id);
+            neighbors.truncate(self.params.m);
+            for old in self.graph_store.get_neighbors(ctx, l, id)? {
+                if old != id && !neighbors.contains(&old) {
+                    neighbors.push(old);
+                }
+            }
+            neighbors.truncate(self.params.m * 2);
 
             // Store bidirectional connections
             self.graph_store
